@@ -51,6 +51,7 @@ fn canonical_scenario(p: &Program, variant: u32) -> C12Scenario {
         clock: CANON_CLOCK,
         clock_step_ns: 0,
         cpus: 0,
+        tmp_missing: false,
         pid: CANON_PID,
         schedule: vec![Round { jobs: vec![Job { thread: 0, program: 0, measured: true, perturb: vec![] }], interleave_seed: 0, switch_permille: 0 }],
         expect: None,
@@ -80,7 +81,9 @@ pub fn run_scenario(sc: &C12Scenario) -> JobsResult {
     let private = format!("{base}/x{n}");
     let _ = std::fs::create_dir_all(format!("{private}/tmp"));
     let _ = std::fs::create_dir_all(format!("{private}/home/.cache"));
-    let tmp = format!("{private}/tmp");
+    // (sometimes the directory the environment names does not exist: nothing the library
+    // promises may depend on it)
+    let tmp = if sc.tmp_missing { format!("{private}/no-such-tmp") } else { format!("{private}/tmp") };
     let home = format!("{private}/home");
     let cache = format!("{private}/home/.cache");
     let extra: Vec<(&str, &str)> = vec![("TMPDIR", &tmp), ("TMP", &tmp), ("TEMP", &tmp), ("HOME", &home), ("XDG_CACHE_HOME", &cache), ("MSIM_PRIVATE", &private)];
@@ -399,6 +402,7 @@ pub fn build_scenarios(seed: u64, programs: &[Program], configs: &[usize], rng: 
             // how fast simulated time passes per clock reading, how many CPUs there seem to be
             clock_step_ns: *rng.pick(&[0i64, 0, 1_000, 1_000_000, 40_000_000, 1_000_000_000, 3_600_000_000_000]),
             cpus: *rng.pick(&[0u32, 0, 1, 2, 3, 16, 64]),
+            tmp_missing: rng.chance(1, 8),
             pid: if rng.chance(1, 2) { CANON_PID } else { rng.range(2, 4_000_000) as i32 },
             schedule,
             expect: None,
@@ -517,6 +521,7 @@ pub fn minimise(sc: &C12Scenario, viol: &Violation, refs: &mut RefCache, budget:
                 c.clock = CANON_CLOCK;
                 c.clock_step_ns = 0;
                 c.cpus = 0;
+                c.tmp_missing = false;
             }
             3 => c.pid = CANON_PID,
             4 => c.threads.iter_mut().for_each(|t| t.readdir_seed = 0),
@@ -658,6 +663,9 @@ pub fn dims(sc: &C12Scenario) -> Vec<String> {
     }
     if sc.cpus != 0 {
         d.push("cpus".to_string());
+    }
+    if sc.tmp_missing {
+        d.push("tmpdir".to_string());
     }
     if sc.pid != CANON_PID {
         d.push("pid".to_string());
@@ -959,6 +967,7 @@ pub fn run_check(tier_name: &str, seed: u64, verif_dir: &str) -> Outcome {
                     clock: CANON_CLOCK,
                     clock_step_ns: 0,
                     cpus: 0,
+                    tmp_missing: false,
                     pid: CANON_PID,
                     schedule,
                     expect: None,
